@@ -143,7 +143,7 @@ func (m *manager) receiveRestartRequest(chid datatransfer.ChannelID, incoming da
 	}
 
 	// return the response message and any errors
-	return msg, m.requestError(result, err, result.ForcePause)
+	return msg, m.requestError(result, err, stayPaused)
 }
 
 // restartRequest performs processing (including validation) on a incoming restart request
